@@ -1,5 +1,5 @@
 HARNESSES = {
-    'Fit': dict(mode='R', split={'slice': 2}, validate=0),
+    'Fit': dict(mode='R', split={'slice': 2}, validate=0, opts=dict(ifconv=False)),
     'KeptDimension': dict(split={'slice': 2}),
 }
 BOUNDS = {
